@@ -1,0 +1,33 @@
+//go:build verif
+
+package callbacks
+
+import "context"
+
+// Hooks of the verification framework (/verif, property C10). Add-only, compiled with -tags verif.
+
+// VerifC10CtxWithManager installs a manager whose handler slice is exactly hs: the caller
+// chooses its length and its capacity (spare capacity is what makes aliasing observable).
+func VerifC10CtxWithManager(ctx context.Context, info *RunInfo, hs []Handler, global []Handler) context.Context {
+	return ctxWithManager(ctx, &manager{globalHandlers: global, handlers: hs, runInfo: info})
+}
+
+// VerifC10Peek returns the slices and the run info of the manager carried by ctx, without
+// any side effect on them.
+func VerifC10Peek(ctx context.Context) (handlers []Handler, global []Handler, info *RunInfo, ok bool) {
+	m, ok := managerFromCtx(ctx)
+	if !ok {
+		return nil, nil, nil, false
+	}
+	return m.handlers, m.globalHandlers, m.runInfo, true
+}
+
+// VerifC10Selected runs On with a handle that only records which handlers On selected for
+// the timing, in the order On hands them over (before OnStartHandle reverses them).
+func VerifC10Selected(ctx context.Context, timing CallbackTiming) (selected []Handler, info *RunInfo, ok bool) {
+	_, _ = On(ctx, struct{}{}, func(c context.Context, x struct{}, ri *RunInfo, hs []Handler) (context.Context, struct{}) {
+		selected, info, ok = append([]Handler(nil), hs...), ri, true
+		return c, x
+	}, timing)
+	return selected, info, ok
+}
